@@ -136,6 +136,16 @@ class NArr:
         return NArr([(f(x), n) for x, n in self.segs], self.truncated_to)
 
 
+class NMask:
+    """boolean array (result of an elementwise comparison): run-length segments of decided truth values"""
+
+    def __init__(self, segs):
+        self.segs = list(segs)
+
+
+EIDX = ("elem-index",)  # atom standing for the generic element index of an elementwise array / comprehension
+
+
 def _segs(v):
     if isinstance(v, NArr):
         return list(v.segs)
@@ -741,6 +751,8 @@ class Interp:
             elif isinstance(obj, PList):
                 i = self.to_rat(key, tgt).as_int()
                 obj.items[i] = val
+            elif isinstance(obj, NArr) and isinstance(key, NMask) and len(key.segs) == len(obj.segs) and isinstance(val, (Rat, Path, bool)):
+                obj.segs = [((val if m else f), n) for (f, n), (m, _) in zip(obj.segs, key.segs)]
             else:
                 raise Unsupported("subscript store on " + canon(obj), tgt)
         else:
@@ -1009,6 +1021,18 @@ class Interp:
                 s = a if isinstance(a, str) else b
                 return self.fork(f"{canon(other)} == {s!r}") ^ (opname == "!=")
             raise Unsupported("string compared with " + canon(other), node)
+        if isinstance(a, NArr) or isinstance(b, NArr):
+            scal = (Rat, Path, NewVar, bool)
+            if isinstance(a, NArr) and isinstance(b, scal):
+                pairs = [(x, b, n) for x, n in a.segs]
+            elif isinstance(b, NArr) and isinstance(a, scal):
+                pairs = [(a, y, n) for y, n in b.segs]
+            elif isinstance(a, NArr) and isinstance(b, NArr) and len(a.segs) == len(b.segs) and all(
+                    canon(x[1]) == canon(y[1]) for x, y in zip(a.segs, b.segs)):
+                pairs = [(x[0], y[0], x[1]) for x, y in zip(a.segs, b.segs)]
+            else:
+                raise Unsupported("array comparison with mismatched shapes", node)
+            return NMask([(self.truth(self.compare(op, x, y, node), node), n) for x, y, n in pairs])
         if isinstance(a, (Rat, Path, NewVar, bool)) and isinstance(b, (Rat, Path, NewVar, bool)):
             ra, rb = self.to_rat(a, node), self.to_rat(b, node)
             if ra.vars() or rb.vars():
@@ -1150,6 +1174,11 @@ class Interp:
                     if pos <= i < pos + nn.as_int():
                         return fill
                     pos += nn.as_int()
+            if len(obj.segs) == 1:
+                fill = obj.segs[0][0]
+                uses_idx = isinstance(fill, Rat) and any(a == EIDX for a in fill.atoms())
+                if not uses_idx or r == Rat.atom(EIDX):
+                    return fill
             raise Unsupported("index into a run-length array not decidable", node)
         if isinstance(obj, VarsDict):
             k = self.dkey(key, node)
@@ -1189,6 +1218,10 @@ class Interp:
                 items = list(it)
             elif isinstance(it, PDict):
                 items = it.okeys()
+            elif isinstance(it, SymRange) and len(e.generators) == 1 and not g.ifs and it.step == Rat.const(1):
+                env3 = dict(env2)
+                self.assign(g.target, Rat.atom(EIDX), env3)
+                raise _ElemComp(RLE(self.eval(e.elt, env3), it.hi - it.lo))
             else:
                 raise Unsupported("comprehension over " + canon(it), e)
             for x in items:
@@ -1197,7 +1230,10 @@ class Interp:
                 if all(self.truth(self.eval(c, env3), c) for c in g.ifs):
                     rec(gi + 1, env3)
 
-        rec(0, dict(env))
+        try:
+            rec(0, dict(env))
+        except _ElemComp as ec:
+            return ec.value
         return PList(out)
 
     # ---------------------------------------------------------------- calls
@@ -1270,6 +1306,17 @@ class Interp:
         if dotted in ("min", "max") and args and all(isinstance(a, Rat) and a.is_const() for a in args):
             f = min if dotted == "min" else max
             return Rat.const(f(a.const_value() for a in args))
+        if dotted in ("min", "max") and len(args) >= 2 and all(isinstance(a, (Rat, Path)) for a in args) and not kwargs:
+            rs = [self.to_rat(a, e) for a in args]
+            if not any(r.vars() for r in rs):
+                best = rs[0]
+                for r in rs[1:]:
+                    le = self.truth(self.compare(ast.LtE(), best, r, e), e)
+                    if dotted == "min":
+                        best = best if le else r
+                    else:
+                        best = r if le else best
+                return best
         if dotted == "dict" and not args:
             return PDict(kwargs)
         if dotted == "list" and len(args) == 1 and isinstance(args[0], (PList, tuple)):
@@ -1395,6 +1442,11 @@ class Interp:
         if isinstance(obj, (Rat, NewVar)) and name == "value":
             return Rat.atom(("value", canon(obj)))
         return self.opaque_call(canon(obj) + "." + str(name), args, kwargs, node)
+
+
+class _ElemComp(Exception):
+    def __init__(self, value):
+        self.value = value
 
 
 class SymRange:
